@@ -13,12 +13,22 @@ TRUSTED_BASE = [
     "Rust harness /verif/harness (engine c12) over rotonda::verif::http (feature verif-hooks): builds hyper Requests from bytes, awaits Server::handle_request in-process, reads status / Content-Encoding / body",
     "modelled, not verified: src/http.rs handle_request/encode_response/Resources, the processors in src/manager.rs, rib_unit/http/request.rs, bmp_tcp_in/http/router_{list,info}/request.rs, mrt_file_in/api.rs; "
     "percent_encoding, String::from_utf8_lossy, url::form_urlencoded, std IP address parsing, inetnum Prefix/Asn::from_str are re-stated in Gallina and tied by the same differential runs",
+    "concurrency (Http/ConcModel.v): one scheduler step = one access to shared state (register mutex, ArcSwap load/store, strong counts; the tokio "
+    "mutex of the BMP state machine and the Option inside); std Mutex / tokio Mutex / ArcSwap are taken to be mutual exclusion / atomic cells; the tie to the "
+    "code is by the anchors in the model file plus the real-thread stages c12-regrace and c12-statelock (harness engine c12, facade rotonda::verif::bmp_stream)",
+    "engine c12lock: the schedule of C12_statelock_release_refuted replayed on the real RouterHandler::process_msg / RouterInfoApi / RouterListApi: the "
+    "connection task is held inside process_msg by back-pressure from the receiving end of the fixture's gate (StreamFixture::hold_updates); 'blocked' = the "
+    "request task has not finished 120 ms after it was spawned",
     "not modelled: hyper's parser and connection handling (request_ok states what the http crate lets through), response bodies beyond 'gzip decodes' and '4xx has a reason', routecore Community::from_str (argument of the model)",
 ]
 ASSUMPTIONS = [
     "the handler is stateless between requests apart from the set of registered processors, so a panic in one request leaves later ones unaffected (checked on the implementation by the follow-up GET /status of every case)",
     "the RIB is physical with an existing (empty) store, the BMP unit has one router in its initial phase, the MRT unit has no update_path: the status codes of these processors on other states are outside the model",
     "Community::from_str is total on ASCII input (it is an argument of the model; theorems hold for every such function)",
+    "concurrent registration: the owner of a processor drops it only after its register call has stored (the callers keep the Arc they downgrade); "
+    "the identity of a registration is the allocation of its processor (a fresh number per call)",
+    "state machine lock: process_msg never takes its MessageType::Aborted arm (hypothesis no_abort; no state of the machine yields it - "
+    "BmpState::_Aborted is never constructed); C12_statelock_abort_refuted shows the hypothesis is needed",
 ]
 
 HEX = "0123456789abcdef"
@@ -348,9 +358,99 @@ def known_signature(k, engine, case, model, spec, impl):
 
 
 ENGINES = [{"name": "c12", "gen": gen, "corpus": corpus, "nontrivial": nontrivial, "classify": classify, "shards": 8}]
-EXTRAS = []
 
-LEVEL_TEXT = ("Theorems over all requests (any method, raw path bytes, query bytes, header lists), all processor configurations and all "
+
+# ---------------------------------------------------------------- concurrency stages (real threads; supporting evidence for Http/ConcModel.v)
+REGRACE_CFG = {"quick": [(8, 48, 60), (3, 24, 150), (16, 12, 60)], "thorough": [(8, 64, 400), (3, 24, 1500), (16, 32, 300), (2, 200, 300)]}
+
+
+def regrace(V, tier, seed):
+    """N threads register (and partly drop again) distinct endpoints at the same moment through the real
+    Resources::register; then every endpoint is requested through the real Server::handle_request. By
+    C12_conc_requests_as_sequential the answers must be those of a sequential history of the same calls: the
+    harness checks every round against the statuses that follow from the programs, and the last (or the first
+    failing) round is also judged by the extracted model (engine c12 on the threads' programs one after the other)."""
+    import subprocess
+    r = {"name": "c12-regrace", "evaluations": 0, "coverage": {"runs": []}, "failures": []}
+    for k, (threads, per, rounds) in enumerate(REGRACE_CFG["thorough" if tier == "thorough" else "quick"]):
+        args = [V.VH, "c12-regrace", str(threads), str(per), str(rounds), str((seed + 17 * k) & 0xffffffff)]
+        try:
+            p = subprocess.run(args, stdout=subprocess.PIPE, stderr=subprocess.PIPE, text=True, timeout=900)
+            lines = p.stdout.split("\n")
+        except subprocess.TimeoutExpired:
+            lines = ["stall the stage did not finish within 900 s", "", ""]
+        verdict = lines[0].strip() if lines else "no output"
+        case = lines[1].strip() if len(lines) > 1 else ""
+        obs = lines[2].strip() if len(lines) > 2 else ""
+        run = {"threads": threads, "endpoints_per_thread": per, "rounds": rounds, "result": verdict[:300]}
+        r["evaluations"] += rounds * threads * per
+        replay = " ".join(args)
+        if case:
+            mo, spec = V.split_model(V.run_lines(V.ORACLE, "c12", [case])[0])
+            if mo.startswith("MODEL-ERROR"):
+                raise V.CheckBroken("oracle failed on the sequential history of a c12-regrace round: " + mo)
+            run["judged_by"] = "DispatchModel.run on the threads' programs, one after the other (C12_conc_requests_as_sequential)"
+            if not V.obs_match(spec, obs):
+                d = V.first_diff(spec, obs)
+                nbad = sum(1 for a, b in zip(spec.split(), obs.split()) if not V.tokens_match(a, b))
+                r["failures"].append({"what": "c12-regrace: after all threads had registered their endpoints concurrently the server does not answer "
+                                              f"as after any sequential history of the same calls: {nbad} of {len(spec.split())} requests differ; first "
+                                              f"difference (position, demanded, found) = {d}; harness verdict: {verdict[:300]}",
+                                      "kind": "property", "replay_cmd": replay, "case": case[:4000], "model": spec[:2000], "impl": obs[:2000]})
+                r["coverage"]["runs"].append(run)
+                break       # one report per stage (the replay file is per stage)
+        r["coverage"]["runs"].append(run)
+        if not verdict.startswith("ok"):
+            r["failures"].append({"what": f"c12-regrace: {verdict[:600]}", "kind": "property", "replay_cmd": replay})
+            break
+    return r
+
+
+def gen_lock(rng, tier):
+    """engine c12lock: request kinds made while the connection task sits inside process_msg"""
+    for _ in range(5 if tier == "quick" else 40):
+        yield " ".join(rng.choice(["I", "L"]) for _ in range(rng.range(1, 5)))
+
+
+def statelock(V, tier, seed):
+    """One BMP connection through the real RouterHandler with its router list / router info endpoints on the same
+    state machine mutex (the scenario of engine c12lock, free-running): requests on a multi-thread runtime while
+    messages are processed back to back. Every request must get its 200, nothing may panic."""
+    import subprocess
+    r = {"name": "c12-statelock", "evaluations": 0, "coverage": {"runs": []}, "failures": []}
+    for k, ms in enumerate([1500, 800] if tier != "thorough" else [6000, 6000, 3000]):
+        args = [V.VH, "c12-statelock", str(ms), str((seed + 31 * k) & 0xffffffff)]
+        try:
+            p = subprocess.run(args, stdout=subprocess.PIPE, stderr=subprocess.PIPE, text=True, timeout=300)
+            out = p.stdout.strip().split("\n")[-1] if p.stdout.strip() else f"no output (exit {p.returncode}) {p.stderr[-300:]}"
+        except subprocess.TimeoutExpired:
+            out = "FAIL the stage did not finish within 300 s (a request or the connection task hangs)"
+        r["coverage"]["runs"].append({"hammer_ms": ms, "result": out[:400]})
+        if out.startswith("ok"):
+            try:
+                r["evaluations"] += int(out.split("requests=")[1].split()[0])
+            except (IndexError, ValueError):
+                pass
+        elif out.startswith("broken"):
+            raise V.CheckBroken("c12-statelock could not set its scenario up: " + out)
+        else:
+            r["failures"].append({"what": f"c12-statelock: a router-info / router-list request made while BMP messages of that router are being "
+                                          f"processed did not get its response: {out[:700]}", "kind": "property", "replay_cmd": " ".join(args)})
+            break
+    return r
+
+
+ENGINES.append({"name": "c12lock", "gen": gen_lock, "corpus": lambda: ["I L", "L I", "I", "L", "I I L I"], "sep": " ", "shards": 5, "timeout": 300,
+                "nontrivial": lambda case, out: "blocked" in out,
+                "classify": lambda case, out: ["requests:%d" % len(case.split())] + (["info"] if "I" in case else []) + (["list"] if "L" in case else [])})
+EXTRAS = [regrace, statelock]
+
+LEVEL_TEXT = ("Concurrency: for all thread sets and all schedules of the step model of Resources::register (mutex, load, build, store, release; owners dropping "
+              "processors at any moment) the live entries equal a sequential register/drop history, so no request can tell the difference, every returned "
+              "registration is present and sub-resources stay first; refutations (lost endpoint -> 404) for the mutex-around-the-store-only and no-mutex variants. "
+              "For the BMP state machine mutex: 'the Option is Some whenever the mutex is free' for all schedules of connection task, info requests and list "
+              "renderings, hence no info request panics; refuted for take-release-process-put. Supported by real-thread stages on the real code. "
+              "Theorems over all requests (any method, raw path bytes, query bytes, header lists), all processor configurations and all "
               "registration histories of the dispatch model: totality and status classification without a panic outcome, method gate, "
               "unknown path -> 404, malformed rib prefix / parameters -> 400, gzip only if compression is on and the client named it, "
               "sub-resources-first ordering of Resources, GET /status answers after any history; refutation lemmas with computed "
